@@ -99,7 +99,15 @@ package util
 // ---- C20: the queue's chunk list and depth are only touched under its lock (every method is atomic w.r.t. them) -------
 //@ guarded [C20] Queue.queue, Queue.depth by Queue.lock
 
-// roughly(input, output): the fuzzy echo test (every input byte found in output, in order); body not verified here
+// the fuzzy echo test: every input byte is found in the output, in order. One step: the first occurrence of a byte is
+// found and the search goes on behind it.
+//@ func bytesRoughlyContainsIterOutputForInputChar [C01]
+//@   pure
+//@   ensures #found-means-first-occurrence-and-the-rest-behind-it result.0 ==> (exists k int :: 0 <= k && k < len(output) && output[k] == inputChar && (forall j int :: 0 <= j && j < k ==> output[j] != inputChar) && result.1 === output[k+1:len(output)])
+//@   ensures #not-found-means-absent !result.0 ==> (forall j int :: 0 <= j && j < len(output) ==> output[j] != inputChar) && result.1 == output
+//@   loop 1 invariant -1 <= rangeindex && rangeindex < len(output)
+//@   loop 1 invariant forall j int :: 0 <= j && j <= rangeindex ==> output[j] != inputChar
+// roughly(input, output): uninterpreted name of the whole test (its loop over the input is not verified here)
 //@ spec roughly(input []byte, output []byte) bool
 //@ func BytesRoughlyContains
 //@   noverify
